@@ -20,7 +20,9 @@ TRUSTED = [
     "FloatAxioms.ltb_spec / eqb_spec and the primitive float operations (standard library) for the float order instance",
     "hand-written model Model/Fnds.v (tables indexed by position, ids looked up by linear search, Z counters) tied to "
     "Selector.fast_nondominated_sorting by this correspondence run",
-    "the comparator inside the sorter is ParetoDominance.compare = Model/Dominance.v pareto_compare (tied to the code by C01)",
+    "the comparator inside the sorter is ParetoDominance.compare = Model/Dominance.v pareto_compare (tied to the code by C01 and by the "
+    "translated DominanceGen obligation; that self.comparator is a ParetoDominance object for every public construction of a Selector "
+    "is sampled by this run, not translated)",
     "feasibility markers modelled as integers (bool/int as produced by artap); float-valued markers not modelled",
 ]
 ASSUMPTIONS = [
@@ -779,8 +781,9 @@ LEVEL_TEXT = ("Machine-checked Coq theorems over an executable model of Selector
               "the input order. The model is tied to operators.py on every run by evaluating it in Coq on generated populations "
               "run through the real sorter, comparing front numbers, counters, dominated lists and fronts exactly.")
 LEVEL_NOTE = ("Full statement proved (no partial fallback). Hypotheses: distinct ids, cost vectors of one length. Trusted: Coq kernel + "
-              "vm_compute; FloatAxioms for the float instance; the hand-written model and the Python harness. Correspondence is "
-              "sampled (generated + corpus cases), the theorems are unbounded.")
+              "vm_compute; FloatAxioms for the float instance; the hand-written model, the translator front-ends (tools/py2coq.py, "
+              "tools/py2coq_heap.py) and the Python harness. Correspondence is sampled (generated + corpus cases; which comparator "
+              "object the sorter reads is sampled over the package's Selector constructions), the theorems are unbounded.")
 
 
 def replay(ctx, data):
